@@ -1149,7 +1149,8 @@ fn build_evidence(
             "runs_per_hour": if wall > 0.0 { (stats.executions as f64 / wall * 3600.0) as u64 } else { 0 },
             "simulated_steps": stats.simulated_steps,
             "console_operations": stats.console_ops,
-            "simulated_time_note": "there is no clock in this system; logical time = interpreter steps + console operations",
+            "simulated_time_note": "the code under test reads no clock (clock_reads_served counts the reads the simulated clock of hook 9 answered); logical time = interpreter steps + console operations",
+            "clock_reads_served": stats.faults_fired.get("clock_reads_served").copied().unwrap_or(0),
             "distinct_history_shapes": stats.shapes.len(),
             "configs": stats.config,
             "case_kinds": stats.kinds,
